@@ -789,6 +789,121 @@ where
 }
 
 // ------------------------------------------------------------------------------------------------
+// Corrupt bodies: the lengths stay right, the Recon text of one payload does not.
+
+/// One payload byte of a frame that is not the last one is overwritten so that the body is (very
+/// likely) no longer what its type accepts. The stream is decoded unsplit and at every single split
+/// point; whatever the decoder does unsplit (reject the frame, or accept it because the edit was
+/// benign) it must do under every split: the same messages before the frame, an error no later than
+/// the read that completes the frame, and never a byte of the following frame consumed.
+fn body_case<Q: Pair>(case_idx: u64, rng: &mut Rng, out: &mut CaseOut)
+where
+    <Q::Dec as Decoder>::Error: std::fmt::Debug,
+{
+    let case = match build::<Q>(rng, 4, false, false) {
+        Ok(c) => c,
+        Err(e) => {
+            out.inconclusive(e);
+            return;
+        }
+    };
+    if case.ends.len() < 2 {
+        out.count("single-frame-stream");
+        return;
+    }
+    let frame = rng.usize_below(case.ends.len() - 1);
+    let payloads: Vec<&Field> = case.fields[frame].iter().filter(|f| f.kind == FKind::Payload && f.len > 0).collect();
+    if payloads.is_empty() {
+        out.count("frame-without-payload");
+        return;
+    }
+    let f = *rng.pick(&payloads);
+    let mut bytes = case.stream.clone();
+    let at = f.off + rng.usize_below(f.len);
+    let junk: &[u8] = &[b'}', b')', b'$', b'@', b'"', b'{', 0x01, b':', b',', 0xff, 0xc3];
+    bytes[at] = *rng.pick(junk);
+    if bytes == case.stream {
+        out.count("mutation-was-identity");
+        return;
+    }
+    out.sig(&bytes);
+    let frame_end = case.ends[frame];
+    let pair = Q::name();
+    let family = pair.split('.').next().unwrap_or("").to_string();
+    let reference = run::<Q>(&bytes, &[], false, false);
+    out.add("decode-calls", reference.calls);
+    let ref_err = match &reference.end {
+        End::Err { consumed, .. } => Some(*consumed),
+        End::Drained => None,
+        other => {
+            // panics and no-progress on such streams are reported by the `mut:` rules too
+            out.violation(P, format!("body/{family}/unsplit-{}", match other { End::Panic(_) => "panic", _ => "no-progress" }), "the decoder panicked or made no progress on a frame with a corrupt body", json!({"pair": pair, "stream": hex(&bytes), "end": short(other)}));
+            return;
+        }
+    };
+    out.nontrivial = true;
+    out.count(if ref_err.is_some() { "body-rejected-unsplit" } else { "body-still-accepted-unsplit" });
+    let mut found: BTreeMap<String, (String, Json)> = BTreeMap::new();
+    let positions: Vec<usize> = if bytes.len() <= EXHAUSTIVE_LIMIT { (1..bytes.len()).collect() } else { let mut v: Vec<usize> = (0..200).map(|_| 1 + rng.usize_below(bytes.len() - 1)).collect(); v.sort(); v.dedup(); v };
+    for p in positions {
+        let tr = run::<Q>(&bytes, &[p], false, false);
+        out.add("decode-calls", tr.calls);
+        out.events += tr.emits.len() as u64 + 1;
+        // messages before the corrupt frame
+        let n_before = reference.emits.iter().filter(|e| e.end <= frame_end.min(ref_err.unwrap_or(usize::MAX))).count();
+        let same_prefix = tr.emits.len() >= n_before.min(reference.emits.len()) && tr.emits.iter().zip(reference.emits.iter()).take(n_before).all(|(a, b)| a.norm == b.norm && a.end == b.end);
+        let where_ = if p < frame_end && p > (if frame == 0 { 0 } else { case.ends[frame - 1] }) { "inside-the-frame" } else { "elsewhere" };
+        if !same_prefix && !matches!(tr.end, End::Panic(_)) {
+            found.entry(format!("body/{family}/messages-before-differ")).or_insert(("the messages decoded before a frame with a corrupt body depend on how the stream is split".into(), json!({"split": p, "unsplit": short(&reference.emits), "split_run": short(&tr.emits)})));
+            continue;
+        }
+        match (&ref_err, &tr.end) {
+            (Some(_), End::Err { fed, .. }) => {
+                // (Where the decoder stands after it has failed is not constrained: a framed reader ends with
+                // the first error.)
+                let due = if p >= frame_end { p } else { bytes.len() };
+                if *fed > due {
+                    found.entry(format!("body/{family}/error-late/split-{where_}")).or_insert(("the error for a frame with a corrupt body was reported only after bytes beyond the read that completed the frame".into(), json!({"split": p, "fed_at_error": fed, "frame_end": frame_end})));
+                }
+            }
+            (Some(_), End::Drained) if tr.emits.len() == case.ends.len() => {
+                found.entry(format!("body/{family}/rejected-unsplit-accepted-when-split/split-{where_}")).or_insert((
+                    "unsplit the frame with the corrupt body is rejected; under this split it is accepted (a message is made from it) and every following frame is delivered".into(),
+                    json!({"split": p, "frame_end": frame_end, "message_made": tr.emits.get(frame).map(|e| short(&e.norm))}),
+                ));
+            }
+            (Some(_), End::Drained) => {
+                found.entry(format!("body/{family}/error-lost/split-{where_}")).or_insert((
+                    "unsplit the frame with the corrupt body is rejected; under this split the whole stream was fed and the decoder neither failed nor delivered the following frames".into(),
+                    json!({"split": p, "frame_end": frame_end, "messages": tr.emits.len(), "left_in_buffer": tr.leftover}),
+                ));
+            }
+            (None, End::Drained) => {
+                let same = tr.emits.len() == reference.emits.len() && tr.emits.iter().zip(reference.emits.iter()).all(|(a, b)| a.norm == b.norm && a.end == b.end);
+                if !same {
+                    found.entry(format!("body/{family}/accepted-differently/split-{where_}")).or_insert(("a stream that decodes without error unsplit decodes to different messages under a split".into(), json!({"split": p, "unsplit": short(&reference.emits), "split_run": short(&tr.emits)})));
+                }
+            }
+            (None, End::Err { class, .. }) => {
+                found.entry(format!("body/{family}/rejected-only-when-split/split-{where_}")).or_insert(("a stream that decodes without error unsplit is rejected under a split".into(), json!({"split": p, "error": class})));
+            }
+            (_, End::Panic(msg)) => {
+                found.entry(format!("body/{family}/panic/{}", sanitize_sig(msg))).or_insert((format!("decoder panicked: {msg}"), json!({"split": p})));
+            }
+            (_, other) => {
+                found.entry(format!("body/{family}/other-end")).or_insert(("unexpected end of the run".into(), json!({"split": p, "end": short(other)})));
+            }
+        }
+    }
+    for (sig, (what, detail)) in found {
+        out.violation(P, sig, what, json!({"pair": pair, "stream": hex(&bytes), "corrupt_frame": frame, "byte_at": at, "frame_ends": case.ends, "observed": detail}));
+    }
+    if case_idx < 3 {
+        out.set_sample(json!({"corrupt_frame": frame, "byte_at": at, "stream_len": bytes.len(), "rejected_unsplit": ref_err.is_some()}));
+    }
+}
+
+// ------------------------------------------------------------------------------------------------
 // Child-process probe: corrupt lengths that make a decoder reserve what they announce.
 
 /// A valid one-message stream of the pair whose first 8-byte (or 4-byte) length prefix is
@@ -838,6 +953,7 @@ fn main() {
     let probe_value = s.args.extra_u64("probe-value").unwrap_or(1 << 40);
     let rt_cases = s.args.budget(220, 7_000);
     let mut_cases = s.args.budget(1_500, 50_000);
+    let body_cases = s.args.budget(300, 10_000);
     // `--only <substring>`: restrict to the pairs whose name contains it (sharding Miri runs).
     let only = s.args.extra.get("only").cloned();
     let mut probes: Vec<Probe> = Vec::new();
@@ -879,6 +995,15 @@ fn main() {
                     mut_cases,
                     |i, rng, out| mut_case::<$q>(i, rng, out),
                 );
+                if !<$q as Pair>::canonical() {
+                    s.part(
+                        &format!("body:{name}"),
+                        "a valid 2-4 message stream of a typed codec in which one byte of a Recon payload of a frame that is not the last is overwritten (lengths untouched), decoded unsplit and at every single split point (long streams: 200 sampled); oracle: whatever the decoder does unsplit (reject the frame, or accept a benign edit) it does under every split - same messages before the frame, the error no later than the read that completes the frame, no acceptance and no error that exists only under a split; non-trivial when the edit changed the stream; distinct by the edited stream",
+                        false,
+                        body_cases,
+                        |i, rng, out| body_case::<$q>(i, rng, out),
+                    );
+                }
             }
         }};
     }
